@@ -6,6 +6,7 @@ git apply $d/patch.diff || exit 8
 for c in "$@"; do
   out=$(cd /verif && timeout 3000 ./check $c --tier quick 2>&1); rc=$?
   nv=$(echo "$out" | grep -c "^VIOLATION")
-  echo "$(basename $d) check=$c rc=$rc violations=$nv :: $(echo "$out" | grep -m1 'what:' | cut -c1-260)"
+  ni=$(echo "$out" | grep -c "^INCONCLUSIVE")
+  echo "$(basename $d) check=$c rc=$rc violations=$nv inconclusive=$ni :: $(echo "$out" | grep -m1 'what:' | cut -c1-260)"
 done
-cd /repo && git checkout -- . 
+cd /repo && git checkout -- .
